@@ -447,3 +447,127 @@ func dkgTorsionKernelVectors(run *mon.Run) {
 	wg.Wait()
 	run.Require(run.Counter("torsion-kernel.receivers") >= 40, "fewer than 40 receivers of torsion-kernel vectors")
 }
+
+// dkgRootPolynomials is a C08 leg for plain Feldman VSS and Feldman-VSS-Qual: the dealer's polynomial has
+// a root at the victim's evaluation point, so the victim's public share is the identity point and its
+// true share is the scalar zero, which the share format cannot even express. Whatever private message
+// the victim gets (none, malformed in every documented way, a non-zero scalar), it does not hold a share
+// matching the vector, so End() must fail with a DKG failure and never return keys.
+func dkgRootPolynomials(run *mon.Run) {
+	grid := [][2]int{{3, 1}, {4, 2}, {5, 3}}
+	if !run.Quick() {
+		grid = append(grid, [2]int{6, 2}, [2]int{7, 4}, [2]int{9, 3})
+	}
+	shareKinds := []string{"none", "empty", "tag-only", "wrong-tag", "short", "long", "zero", "r", "max", "one"}
+	var wg sync.WaitGroup
+	sem := make(chan struct{}, 16)
+	for gi, g := range grid {
+		n, t := g[0], g[1]
+		for rep := 0; rep < run.Pick(2, 8); rep++ {
+			wg.Add(1)
+			sem <- struct{}{}
+			go func(gi, rep int) {
+				defer wg.Done()
+				defer func() { <-sem }()
+				defer run.Protect("c08 root polynomial")
+				r := run.Rand(fmt.Sprintf("root-%d-%d", gi, rep))
+				dealer := r.IntN(n)
+				victim := (dealer + 1 + r.IntN(n-1)) % n
+				x := int64(victim + 1)
+				p := craftedPoly{kind: "root-at-victim", a: make([]*big.Int, t+1)}
+				for i := range p.a {
+					p.a[i] = randScalar(r)
+				}
+				// a_0 = -(a_1 x + ... + a_t x^t)
+				p.a[0] = new(big.Int)
+				p.a[0] = ref.Fr.Neg(p.eval(x))
+				if p.a[0].Sign() == 0 || p.eval(x).Sign() != 0 {
+					return
+				}
+				vec := p.vectorBytes()
+				for _, proto := range []string{"FeldmanVSS", "FeldmanVSSQual"} {
+					for _, sk := range shareKinds {
+						for _, shareFirst := range []bool{true, false} {
+							var share []byte
+							switch sk {
+							case "none":
+								share = nil
+							case "empty":
+								share = []byte{}
+							case "tag-only":
+								share = []byte{sim.TagShare}
+							case "wrong-tag":
+								share = append([]byte{sim.TagAnswer}, scalar32(big.NewInt(5))...)
+							case "short":
+								share = append([]byte{sim.TagShare}, make([]byte, 31)...)
+							case "long":
+								share = append([]byte{sim.TagShare}, make([]byte, 33)...)
+							case "zero":
+								share = append([]byte{sim.TagShare}, make([]byte, 32)...)
+							case "r":
+								share = append([]byte{sim.TagShare}, scalar32(ref.R)...)
+							case "max":
+								share = append([]byte{sim.TagShare}, bytes.Repeat([]byte{0xff}, 32)...)
+							default:
+								share = append([]byte{sim.TagShare}, scalar32(big.NewInt(1))...)
+							}
+							repm := map[string]any{"protocol": proto, "n": n, "t": t, "dealer": dealer, "victim": victim, "share": sk, "share_first": shareFirst, "vector": mon.Hex(vec)}
+							var res craftedResult
+							if sk == "none" {
+								res = feedReceiverNoShare(proto, n, t, victim, dealer, vec)
+							} else {
+								res = feedReceiver(proto, n, t, victim, dealer, vec, share, shareFirst)
+							}
+							run.Eval(1)
+							run.Count("root-polynomial.receivers", 1)
+							if res.problem != "" {
+								run.Violate("C08:root-polynomial:problem", fmt.Sprintf("%s receiver %d: %s", proto, victim, res.problem), repm)
+								return
+							}
+							if res.endErr == nil {
+								run.Violate("C08:root-polynomial:keys-without-a-matching-share:"+proto, fmt.Sprintf("%s receiver %d (n=%d,t=%d): the vector gives it the identity as public share (the polynomial has a root at %d), the private message was %q, and End() returned keys (private share %x)", proto, victim, n, t, x, sk, res.sk.Encode()), repm)
+								return
+							}
+							if !crypto.IsDKGFailureError(res.endErr) {
+								run.Violate("C08:root-polynomial:error-class", fmt.Sprintf("%s receiver %d: End() error %v is not a DKG failure", proto, victim, res.endErr), repm)
+								return
+							}
+						}
+					}
+				}
+				run.Shape(fmt.Sprintf("root-polynomial|n%d|t%d", n, t))
+			}(gi, rep)
+		}
+	}
+	wg.Wait()
+	run.Require(run.Counter("root-polynomial.receivers") >= 100, "fewer than 100 receivers of root polynomials")
+}
+
+// feedReceiverNoShare: the vector only; in the Qual protocol the receiver complains and nobody answers.
+func feedReceiverNoShare(proto string, n, t, id, dealer int, vector []byte) (res craftedResult) {
+	rp := newRecProc()
+	var in crypto.DKGState
+	var err error
+	if proto == "FeldmanVSS" {
+		in, err = crypto.NewFeldmanVSS(n, t, id, rp, dealer)
+	} else {
+		in, err = crypto.NewFeldmanVSSQual(n, t, id, rp, dealer)
+	}
+	if err != nil {
+		res.problem = "constructor: " + err.Error()
+		return
+	}
+	defer func() {
+		if e := recover(); e != nil {
+			res.problem = fmt.Sprintf("panic: %v at %s", e, mon.PanicSite())
+		}
+	}()
+	_ = in.Start(bytes.Repeat([]byte{byte(id + 1)}, 32))
+	_ = in.HandleBroadcastMsg(dealer, vector)
+	if proto != "FeldmanVSS" {
+		_ = in.NextTimeout()
+		_ = in.NextTimeout()
+	}
+	res.sk, res.gpk, res.pks, res.endErr = in.End()
+	return
+}
